@@ -1,86 +1,27 @@
-"""In-Coq re-evaluation of a sample of `lap` cases (thorough tier of C16..C20): each sampled case and the answer the
-EXTRACTED runner gave for it are written as `Example … : run_lap W ivs ops = <runner's answer>. Proof. vm_compute.
-reflexivity. Qed.` and compiled by coqc against coq/LapRun.v.  A failure means the extracted OCaml program (or the OCaml
-glue around it) and the Gallina model disagree — a defect of the machinery, not of the repository."""
+"""In-Coq re-evaluation of a sample of cases (thorough tier, every property): each sampled case line and the answer the
+EXTRACTED runner gave for it are turned into Gallina terms of type Run.sexp and written as
+`Example xK : run_case <case> = <runner's answer>. Proof. vm_compute. reflexivity. Qed.`, compiled by coqc against
+coq/Run.v.  Since the whole case interpreter is Gallina (Run.run_case), a failure means that the extracted OCaml program
+(extraction, the OCaml compiler, or the 70-line tokenizer/printer extract/main.ml) and the Gallina model disagree — a
+defect of the machinery, not of the repository."""
 import os, subprocess
-import sx
+import sx2coq
 
 
-def iv(t):
-    return '(mkiv %s %s %s)' % (t[0], t[1], t[2])
-
-
-def ivlist(l):
-    return '[' + '; '.join(iv(t) for t in l) + ']'
-
-
-def lop(o):
-    if o[0] == 'ins': return '(Insert %s)' % iv(o[1:4])
-    if o[0] == 'merge': return 'Merge'
-    if o[0] == 'setcov': return 'SetCov'
-    raise ValueError(o)
-
-
-def sop(o):
-    h = o[0]
-    if h == 'ins': return '(SIns %s)' % iv(o[1:4])
-    if h == 'merge': return 'SMerge'
-    if h == 'setcov': return 'SSetCov'
-    if h == 'cur0': return 'SCur0'
-    if h == 'find': return '(SFind %s %s)' % (o[1], o[2])
-    if h == 'seek': return '(SSeek %s %s)' % (o[1], o[2])
-    if h == 'count': return '(SCount %s %s)' % (o[1], o[2])
-    if h == 'cov': return 'SCov'
-    if h == 'len': return 'SLen'
-    if h == 'isempty': return 'SIsEmpty'
-    if h == 'ivs': return 'SIvs'
-    if h == 'depth': return 'SDepth'
-    if h == 'ivcmp': return '(SIvCmp %s %s)' % (iv(o[1]), iv(o[2]))
-    if h == 'ui': return '(SUI %s [%s])' % (ivlist(o[1][1:]), '; '.join(lop(x) for x in o[2][1:]))
-    raise ValueError(o)
-
-
-def sout(ops, outs):
-    """runner output items -> Gallina terms; needs the ops to tell a `count` (RNat) from other numbers"""
-    emitting = [o for o in ops if o[0] in ('find', 'seek', 'count', 'cov', 'len', 'isempty', 'ivs', 'depth', 'ivcmp', 'ui')]
-    res = []
-    for k, x in enumerate(outs):
-        if x == 'panic':
-            res.append('RPanic'); break
-        op = emitting[k][0]
-        if op in ('find', 'seek'): res.append('(RHits %s)' % ivlist(x[1:]))
-        elif op in ('count', 'cov', 'len'): res.append('(RNat %s)' % x)
-        elif op == 'isempty': res.append('(RBool %s)' % ('true' if x == '1' else 'false'))
-        elif op == 'ivs': res.append('(RIvs %s)' % ivlist(x[1:]))
-        elif op == 'depth': res.append('(RDepth %s)' % ivlist(x[1:]))
-        elif op == 'ivcmp': res.append('(RIvCmp %s %s)' % ('true' if x[1] == '1' else 'false', {'eq': 'Eq', 'lt': 'Lt', 'gt': 'Gt'}[x[2]]))
-        elif op == 'ui': res.append('(RUI %s %s)' % (x[1], x[2]))
-    return '[' + '; '.join(res) + ']'
-
-
-def run(coqdir, rundir, cases, model_outs, limit=40):
-    """cases: lap case texts; model_outs: the extracted runner's output lines.  Returns (n_checked, failure text or None)."""
-    lines = ['From BedV Require Import Base LapperModel LapRun.']
-    n = 0
-    for c, m in zip(cases, model_outs):
-        if n >= limit:
-            break
-        try:
-            cs, ms = sx.parse(c), sx.parse(m)
-            if cs[0] != 'lap' or ms[0] != 'r' or len(c) > 3000:
-                continue
-            ops = [o for o in cs[3][1:] if o[0] not in ('reload', 'clone')]      # identity on the model
-            lines.append('Example x%d : run_lap %s %s [%s] = %s.\nProof. vm_compute. reflexivity. Qed.' % (
-                n, cs[1], ivlist(cs[2][1:]), '; '.join(sop(o) for o in ops), sout(ops, ms[1:])))
-            n += 1
-        except Exception:
-            continue
-    if n == 0:
+def run(coqdir, rundir, cases, model_outs, limit=40, max_len=3000):
+    """cases: case texts; model_outs: the extracted runner's answer lines.  Returns (n_checked, failure text or None)."""
+    pairs = [(c, m) for c, m in zip(cases, model_outs) if 'glue-error' not in m and not m.startswith('(abort')]
+    idx = sx2coq.select([c for c, _ in pairs], [m for _, m in pairs], limit, max_len)
+    if not idx:
         return 0, None
+    lines = ['From BedV Require Import Run.']
+    for k, i in enumerate(idx):
+        c, m = pairs[i]
+        lines.append('Example x%d : run_case (%s) = %s.\nProof. vm_compute. reflexivity. Qed.' % (k, sx2coq.line_term(c), sx2coq.line_term(m)))
     v = os.path.join(rundir, 'CrossCheck.v')
     open(v, 'w').write('\n'.join(lines) + '\n')
-    p = subprocess.run('timeout 600 coqc -noglob -Q %s BedV %s' % (coqdir, v), shell=True, cwd=rundir,
+    p = subprocess.run('timeout 900 coqc -noglob -Q %s BedV %s' % (coqdir, v), shell=True, cwd=rundir,
                        stdout=subprocess.PIPE, stderr=subprocess.STDOUT)
     if p.returncode != 0:
-        return n, p.stdout.decode('utf-8', 'replace')[-1500:]
-    return n, None
+        return len(idx), p.stdout.decode('utf-8', 'replace')[-1500:]
+    return len(idx), None
